@@ -404,11 +404,17 @@ def _convert_importable(value: Any,
                         conversion_fn: PyValToCstFunc) -> cst.CSTNode:
   """Converts an importable value to the CST for `<module_name>.<qualname>`."""
   module = inspect.getmodule(value)
+  qualname = value.__qualname__
+  if inspect.ismethod(value) and isinstance(value.__self__, type):
+    # A classmethod is named through the class it is bound to (which may be a
+    # subclass of the class defining it).
+    module = inspect.getmodule(value.__self__)
+    qualname = value.__self__.__qualname__ + '.' + value.__name__
   if module.__name__ == '__main__' or module is builtins:
-    return dotted_name_to_cst(value.__qualname__)
+    return dotted_name_to_cst(qualname)
   else:
-    result = conversion_fn(inspect.getmodule(value))
-    for piece in value.__qualname__.split('.'):
+    result = conversion_fn(module)
+    for piece in qualname.split('.'):
       result = cst.Attribute(value=result, attr=cst.Name(piece))
     return result
 
